@@ -17,7 +17,7 @@ NoFirst == [set |-> FALSE]
 ScOf(j) == [prov |-> [i \in 1..Len(j.prov) |-> [ty |-> j.prov[i].ty, named |-> j.prov[i].named, q |-> j.prov[i].q]],
             pts |-> [i \in 1..Len(j.pts) |-> [kind |-> j.pts[i].kind, tag |-> j.pts[i].tag, byName |-> j.pts[i].byName,
                                               q |-> ToSet(j.pts[i].q), hasQ |-> j.pts[i].hasQ, req |-> j.pts[i].req, fn |-> j.pts[i].fn, ret |-> ToSet(j.pts[i].ret)]],
-            preset |-> j.preset]
+            preset |-> j.preset, extra |-> j.extra]
 TraceScenarios == {ScOf(Trace[1].sc)}
 E == Trace[l]
 IsEv(name) == l <= Len(Trace) /\ E.ev = name /\ l' = l + 1
